@@ -222,6 +222,10 @@ func (p *valParser) value() interface{} {
 		if len(xs) == 0 {
 			return (*int)(nil)
 		}
+		if xs[0] == nil {
+			var e interface{}
+			return &e
+		}
 		pv := reflect.New(reflect.TypeOf(xs[0]))
 		pv.Elem().Set(reflect.ValueOf(xs[0]))
 		return pv.Interface()
